@@ -1,3 +1,3 @@
 # memfault-solve-null-constant-term (family solver-numeric-rhs-null-constants): segv
-solve 1 3 3 8 2 1 2 1 2 1 0 1 0 0 1 0 1 0
+solve 1 3 1 9 0 1 0 1 0 0 0 1 0 0 0
 reset
